@@ -48,6 +48,7 @@ def triple(draw, d):
 def case_strategy(draw, name, n_triples):
   m = draw(E.model_desc(name))
   d = m['desc']['d']
+  m['f32param'] = draw(st.integers(0, 2)) == 0       # array-valued prior / init stored in single precision
   return dict(model=m, triples=draw(st.lists(triple(d), min_size=max(1, n_triples // 2), max_size=n_triples)))
 
 
@@ -97,7 +98,20 @@ def realise(t, L, Xtrain):
 def check_c01(case, stats):
   m = case['model']
   name = m['est']
-  est, data, params = E.fit_model(m, sig='C01/fit', expect=(RuntimeError,) if 'SDML' in name else ())
+  if m.get('f32param') and any(isinstance(v, str) and v in ('array', 'diag-array') for v in m['opts'].values()):
+    # "an array is used as given": the same SPD / transformation matrix stored as float32
+    data_ = gen.Data(m['desc'])
+    params_ = E.materialize(name, m['opts'], data_, m['aseed'])
+    for key in ('prior', 'init', 'basis'):
+      if isinstance(params_.get(key), np.ndarray):
+        a32 = params_[key].astype(np.float32)
+        params_[key] = ((a32 + a32.T) / 2).astype(np.float32) if a32.shape[0] == a32.shape[1] and key != 'basis' and name not in ('LMNN', 'NCA', 'MLKR') else a32
+    est = E.build(name, params_)
+    r_ = E.fit_call('C01/fit', name, est, E.fit_args(name, data_), m['desc'], params_, expect=(RuntimeError,) if 'SDML' in name else ())
+    est, data, params = (r_ if isinstance(r_, Exception) else est), data_, params_
+    stats.classes['float32-array-option'] += 1
+  else:
+    est, data, params = E.fit_model(m, sig='C01/fit', expect=(RuntimeError,) if 'SDML' in name else ())
   if isinstance(est, Exception):
     raise Discard('SDML RuntimeError (specified outcome)')
   L = np.asarray(est.components_)
